@@ -124,6 +124,15 @@ def corpus(lanes):
                [e, "key " + eq1, "key " + eq2],       # F09 equal values cancel
                [e, "key " + ok1, "key " + ok2, "key " + ok3, "key " + ok4, "key " + eq2],   # F10
                [e, "key " + s1, "key " + s2]]
+    # the source text is a key input also for file-built kernels within ONE process: a file rewritten with
+    # different text of the same length within the same second must hash differently (seeded change C06-m2
+    # memoised hashFile by path, mtime second and size)
+    hx = lambda t: t.encode().hex()
+    pth = os.path.join(BUILD, "tmp", "c06_hashfile_probe.okl")
+    hs.append(["write %s %s" % (hx(pth), hx("@kernel void k(int *a) { a[0] = 1; }\n")), "hashfile " + hx(pth),
+               "write %s %s" % (hx(pth), hx("@kernel void k(int *a) { a[0] = 2; }\n")), "hashfile " + hx(pth),
+               "write %s %s" % (hx(pth), hx("@kernel void k(int *a) { a[0] = 3; }\n")), "hashfile " + hx(pth),
+               "rm " + hx(pth), "hashfile " + hx(pth)])
     return hs
 
 
